@@ -142,6 +142,11 @@ def run_shard(ctx):
                 reach.setdefault(oid, set()).add(resolve(pmap, dk, "remote"))
                 reach_c.setdefault(oid, set()).add(resolve(pmap, dk, "cache"))
             all_reach = set(reach)
+            # collect() groups by remote and keeps the first prefix's cache for it: a remote paired with several caches
+            caches_of_remote = {}
+            for p, r in pmap.items():
+                caches_of_remote.setdefault(r["remote"], set()).add(r["cache"])
+            split_remote = {rn for rn, cs in caches_of_remote.items() if len(cs) > 1}
             res.count("objects_designation_checked", len(reach))
             cfg = {"prefixes": {"/".join(p) or "<root>": r for p, r in pmap.items()}, "files": sorted("/".join(k) for k in files)[:12],
                    "reachable": len(all_reach), "shared_cache": shared_cache, "shared_remote": shared_remote, "remote_index": use_rindex}
@@ -195,7 +200,7 @@ def run_shard(ctx):
                         res.violation("failed-upload-object-present", f"{bad[:2]} present although its upload failed", case=case, detail=info)
                 if S:
                     res.count("failure_rounds")
-                    if failed1 == 0 and any(S & {o for o in all_reach if n in reach[o]} for n in remotes):
+                    if failed1 == 0 and not split_remote and any(S & {o for o in all_reach if n in reach[o]} for n in remotes):
                         res.violation("failures-not-counted", "uploads failed but push reported failed == 0", case=case, detail=info)
                 # clean retry
                 res.count("retries")
@@ -206,10 +211,17 @@ def run_shard(ctx):
                 for o, names in reach.items():
                     for n in names:
                         if n is not None and o not in after[n]:
+                            if n in split_remote:
+                                res.violation("reachable-object-missing-from-designated-remote/one-remote-paired-with-several-caches",
+                                              f"{o} not pushed to remote {n}: collect() pairs a remote with the cache of the first prefix only",
+                                              case=case, detail=info)
+                                break
                             res.violation("reachable-object-missing-from-designated-remote" + ("/after-failed-round" if S else ""),
                                           f"{o} is reachable and designated for remote {n} but is not there after push", case=case, detail=info)
                             break
                 had_to_move = sum(len(after[n] - before[n]) for n in remotes)
+                if split_remote:
+                    continue
                 if pushed1 + failed1 != had_to_move and not S:
                     res.violation("counts-do-not-add-up", f"pushed+failed = {pushed1}+{failed1}, objects that had to move = {had_to_move}", case=case, detail=info)
                 if S and pushed1 + pushed2 != had_to_move:
@@ -239,11 +251,14 @@ def run_shard(ctx):
             cstate = {n: store_snapshot(o.path) for n, o in fresh.items()}
             if ffailed:
                 res.violation("fetch-reports-failures", f"fault-free fetch reported failed={ffailed}", case=case, detail=cfg)
-            if fetched != sum(len(v) for v in cstate.values()):
+            if fetched != sum(len(v) for v in cstate.values()) and not split_remote:
                 res.violation("fetched-count-wrong", f"fetch reported {fetched}, {sum(len(v) for v in cstate.values())} objects appeared", case=case, detail=cfg)
             for o, names in reach_c.items():
                 for n in names:
                     if n is not None and o not in cstate[n]:
+                        if split_remote:
+                            res.count("fetch_skipped_checks_split_remote")
+                            break
                         res.violation("reachable-object-missing-from-designated-cache", f"{o} not fetched into cache {n}", case=case, detail=cfg)
                         break
             for n, snap in cstate.items():
@@ -255,10 +270,11 @@ def run_shard(ctx):
                         res.violation("fetched-object-wrong-bytes", f"{oid} in cache {n} does not match its name", case=case, detail=cfg)
             res.count("checkouts_from_fetched_cache")
             out = os.path.join(d, "out")
+            os.makedirs(out)
             errs = []
             apply(compare(None, idx2), out, fs, storage="cache", onerror=lambda s, dst, e: errs.append((dst, repr(e))), update_meta=False)
             got = walk_files(out)
-            if got != covered or errs:
+            if (got != covered or errs) and not split_remote:
                 missing = sorted(k for k in covered if k not in got)
                 res.violation("checkout-from-fetched-cache-differs", f"missing={missing[:2]} errors={errs[:2]}", case=case, detail=cfg)
             env.reset_staging()
